@@ -131,7 +131,8 @@ def equality_test(actual, expected, _exact_strings, _delta):
     # Float comparison
     if ((isinstance(expected, float) and isinstance(actual, (float, int))) or
             (isinstance(actual, float) and isinstance(expected, (float, int)))):
-        error = _delta
+        # (no tolerance given: the default one)
+        error = 0.001 if _delta is None else _delta
         # Infinities are equal to themselves, although their difference is NaN
         return expected == actual or abs(expected - actual) < error
     # Other numerics
